@@ -1022,10 +1022,10 @@ class Ctx:
         return self.st.env[name]
 
     def old(self, name):
-        return (self.pre or self.entry).env[name].e
+        return (self.pre or self.entry or self.st).env[name].e
 
     def fld(self, cls, f, which='cur'):
-        st = self.st if which == 'cur' else (self.pre if which == 'pre' else self.entry)
+        st = self.st if which == 'cur' else ((self.pre if which == 'pre' else self.entry) or self.st)      # while the pre-condition is evaluated the pre-state IS the current state
         return self.eng.field(st, cls, f)
 
 
